@@ -3,7 +3,7 @@
 From Coq Require Import ZArith List String Bool Lia.
 Import ListNotations.
 From QV Require Import Model.Route.
-Open Scope Z_scope.
+Local Open Scope Z_scope.
 
 Ltac Zify.zify_post_hook ::= Z.div_mod_to_equations.
 
